@@ -659,3 +659,272 @@ func (p poly) String() string {
 	}
 	return strings.Join(parts, " + ")
 }
+
+// exitsBefore lists the conditional branches that can reach instruction `at` and from one of whose successors a
+// Return is reachable without passing through at's block: the conditions under which the function gives up
+// before doing `at`.
+func exitsBefore(at ssa.Instruction) []*ssa.If {
+	cb := at.Block()
+	fn := at.Parent()
+	reach := map[*ssa.BasicBlock]bool{}
+	var walk func(b *ssa.BasicBlock)
+	walk = func(b *ssa.BasicBlock) {
+		if reach[b] {
+			return
+		}
+		reach[b] = true
+		for _, pr := range b.Preds {
+			walk(pr)
+		}
+	}
+	for _, pr := range cb.Preds {
+		walk(pr)
+	}
+	var out []*ssa.If
+	for _, b := range fn.Blocks {
+		if !reach[b] {
+			continue
+		}
+		ifi, ok := b.Instrs[len(b.Instrs)-1].(*ssa.If)
+		if !ok {
+			continue
+		}
+		for _, s := range b.Succs {
+			if returnAvoiding(s, func(x *ssa.BasicBlock) bool { return x == cb }) != nil {
+				out = append(out, ifi)
+				break
+			}
+		}
+	}
+	return out
+}
+
+// stripNot removes logical negations.
+func stripNot(v ssa.Value) ssa.Value {
+	for {
+		if u, ok := v.(*ssa.UnOp); ok && u.Op == token.NOT {
+			v = u.X
+			continue
+		}
+		return v
+	}
+}
+
+// giveUpsBefore lists the conditional branches under which control does not get to instruction `at`: inside the
+// innermost loop around `at`, the branches from which the loop header (continue), the loop's exit or a return is
+// reachable without passing at's block; for an instruction outside any loop, the branches that return early and,
+// transitively, the same question for every static call site of the enclosing function.
+func giveUpsBefore(p *core.Program, at ssa.Instruction, depth int) []*ssa.If {
+	cb := at.Block()
+	hdr := loopHeaderOf(at)
+	if hdr == cb && !inAnyLoop(at) {
+		out := exitsBefore(at)
+		if depth < 3 {
+			for _, e := range p.Callers(at.Parent()) {
+				if e.Site != nil && e.Caller != nil && e.Caller.Func != nil && p.IsOwnFn(e.Caller.Func) {
+					if _, isGo := e.Site.(*ssa.Go); isGo {
+						continue
+					}
+					out = append(out, giveUpsBefore(p, e.Site, depth+1)...)
+				}
+			}
+		}
+		return out
+	}
+	reach := map[*ssa.BasicBlock]bool{}
+	var walk func(b *ssa.BasicBlock)
+	walk = func(b *ssa.BasicBlock) {
+		if reach[b] {
+			return
+		}
+		reach[b] = true
+		if b == hdr {
+			return
+		}
+		for _, pr := range b.Preds {
+			walk(pr)
+		}
+	}
+	for _, pr := range cb.Preds {
+		walk(pr)
+	}
+	escapes := func(from *ssa.BasicBlock) bool {
+		seen := map[*ssa.BasicBlock]bool{}
+		stack := []*ssa.BasicBlock{from}
+		for len(stack) > 0 {
+			b := stack[len(stack)-1]
+			stack = stack[:len(stack)-1]
+			if b == cb || seen[b] {
+				continue
+			}
+			seen[b] = true
+			if b == hdr || !inNaturalLoop(b, hdr) {
+				return true
+			}
+			if _, isPanic := b.Instrs[len(b.Instrs)-1].(*ssa.Panic); isPanic {
+				continue
+			}
+			if len(b.Succs) == 0 {
+				return true
+			}
+			stack = append(stack, b.Succs...)
+		}
+		return false
+	}
+	var out []*ssa.If
+	for _, b := range at.Parent().Blocks {
+		if !reach[b] || !inNaturalLoop(b, hdr) {
+			continue
+		}
+		ifi, ok := b.Instrs[len(b.Instrs)-1].(*ssa.If)
+		if !ok {
+			continue
+		}
+		for _, s := range b.Succs {
+			if escapes(s) {
+				out = append(out, ifi)
+				break
+			}
+		}
+	}
+	return out
+}
+
+// receivedMessageOnly: v is computed from the received PFCP message alone (the result of message.Parse, or a
+// message-typed parameter it was passed on as) — possibly through method calls on it and constants — and from
+// nothing the server holds.
+func receivedMessageOnly(v ssa.Value, depth int) bool {
+	if depth > 6 {
+		return false
+	}
+	v = core.Unwrap(v)
+	switch x := v.(type) {
+	case *ssa.Const:
+		return true
+	case *ssa.Parameter:
+		return true
+	case *ssa.Extract:
+		if cl, ok := x.Tuple.(*ssa.Call); ok {
+			if f := core.Callee(cl); f != nil && f.Name() == "Parse" && f.Pkg() != nil && f.Pkg().Path() == core.PkgMessage {
+				return true
+			}
+		}
+		return false
+	case *ssa.TypeAssert:
+		return receivedMessageOnly(x.X, depth+1)
+	case *ssa.ChangeInterface:
+		return receivedMessageOnly(x.X, depth+1)
+	case *ssa.BinOp:
+		return receivedMessageOnly(x.X, depth+1) && receivedMessageOnly(x.Y, depth+1)
+	case *ssa.Call:
+		if x.Call.IsInvoke() {
+			if !receivedMessageOnly(x.Call.Value, depth+1) {
+				return false
+			}
+		}
+		for _, a := range x.Call.Args {
+			if !receivedMessageOnly(a, depth+1) {
+				return false
+			}
+		}
+		return true
+	}
+	return false
+}
+
+// mentionsAnyField: the expression tree of v — through arithmetic, conversions, phis, calls' arguments (also the
+// variadic ones) and single-assignment cells — contains a load of one of the given fields.
+func mentionsAnyField(v ssa.Value, fields map[*types.Var]bool, depth int, seen map[ssa.Value]bool) bool {
+	if depth > 10 || v == nil || seen[v] {
+		return false
+	}
+	seen[v] = true
+	if _, f, ok := core.LoadedField(v); ok && fields[f] {
+		return true
+	}
+	if u := core.Unwrap(v); u != v {
+		return mentionsAnyField(u, fields, depth+1, seen)
+	}
+	switch x := v.(type) {
+	case *ssa.BinOp:
+		return mentionsAnyField(x.X, fields, depth+1, seen) || mentionsAnyField(x.Y, fields, depth+1, seen)
+	case *ssa.Convert:
+		return mentionsAnyField(x.X, fields, depth+1, seen)
+	case *ssa.ChangeType:
+		return mentionsAnyField(x.X, fields, depth+1, seen)
+	case *ssa.MakeInterface:
+		return mentionsAnyField(x.X, fields, depth+1, seen)
+	case *ssa.Field:
+		if f := core.FieldOfField(x); f != nil && fields[f] {
+			return true
+		}
+		return mentionsAnyField(x.X, fields, depth+1, seen)
+	case *ssa.Extract:
+		return mentionsAnyField(x.Tuple, fields, depth+1, seen)
+	case *ssa.Phi:
+		for _, e := range x.Edges {
+			if mentionsAnyField(e, fields, depth+1, seen) {
+				return true
+			}
+		}
+	case *ssa.Call:
+		for _, a := range x.Call.Args {
+			if mentionsAnyField(a, fields, depth+1, seen) {
+				return true
+			}
+			for _, vv := range variadicValues(a) {
+				if mentionsAnyField(vv, fields, depth+1, seen) {
+					return true
+				}
+			}
+		}
+	}
+	return false
+}
+
+// nodeIDResolved: a PFCP node id is an IPv4/IPv6 address OR a host name (TS 29.244 8.2.38; the configuration
+// validator accepts `host`), so wherever go-upf turns a node id into an address it has to use a resolver.  A
+// literal-only parser (net.ParseIP, net.ParseCIDR, netip.Parse*) makes every FQDN node id unusable: no F-SEID
+// address in the Establishment Response, no destination for the reports of that SMF's sessions.
+func nodeIDResolved(c *core.Ctx, rule string) {
+	p := c.P
+	fields := map[*types.Var]bool{}
+	for _, f := range []*types.Var{p.Field(pkgPfcp, "RemoteNode", "ID"), p.Field(pkgPfcp, "PfcpServer", "nodeID"), p.Field(pkgFact, "Pfcp", "NodeID")} {
+		if f != nil {
+			fields[f] = true
+		}
+	}
+	if len(fields) < 3 {
+		c.Anchor(rule, "RemoteNode.ID / PfcpServer.nodeID / factory.Pfcp.NodeID")
+		return
+	}
+	nUse := 0
+	for _, fn := range p.OwnFuncs() {
+		idx := 0
+		core.Instrs(fn, func(in ssa.Instruction) {
+			cl, ok := in.(*ssa.Call)
+			if !ok {
+				return
+			}
+			f := core.Callee(cl)
+			if f == nil || f.Pkg() == nil || (f.Pkg().Path() != "net" && f.Pkg().Path() != "net/netip") {
+				return
+			}
+			uses := false
+			for _, a := range cl.Call.Args {
+				if bt, ok := a.Type().Underlying().(*types.Basic); ok && bt.Info()&types.IsString != 0 && mentionsAnyField(a, fields, 0, map[ssa.Value]bool{}) {
+					uses = true
+				}
+			}
+			if !uses {
+				return
+			}
+			nUse++
+			idx++
+			literalOnly := strings.HasPrefix(f.Name(), "Parse") || strings.HasPrefix(f.Name(), "MustParse")
+			c.Check(rule, fmt.Sprintf("node-id-resolved:%s#%d", core.FnName(fn), idx), cl.Pos(), !literalOnly,
+				"a node id is turned into an address by a resolver (it may be a host name), not by the literal-only "+f.Pkg().Name()+"."+f.Name())
+		})
+	}
+	c.Floor(rule, nUse, 2, "places where a node id becomes an address")
+}
